@@ -291,21 +291,14 @@ def loc_predicates(sc, ids, masks, wins, wit, res):
         a, b = weval(wit[j], lo), weval(wit[j], hi)
         f = a > 0 and b <= 0 and (masks[j] & 1); r = a < 0 and b >= 0 and (masks[j] & 2)
         return 1 if f else 2 if r else 0
-    prev_event_hi = None; step_open = None
+    step_report = None
     for c in sc['calls']:
         res['n_pred'] += 1
-        if c['steps'] == c['preSteps'] + 1:
-            t0, t1 = c['preAdv'], c['adv']
-            got_event = c['status'] == 'ReachedEventTrigger'
-            # detection ("without skipping any that persist across a step"): a monitored change over the whole advanced step must
-            # produce an event; checked when the step was not cut back (advanced time reached without event means no candidate)
-            if not got_event:
-                miss = [j for j in range(len(ids)) if changed(j, t0, t1)]
-                # the event may be pending (report time returned first): then adv==tHigh<t1 of the full step, cannot tell here
-                if miss and c['status'] in ('TimeHasAdvanced',) and False:
-                    pass
+        if c['steps'] == c['preSteps'] + 1: step_report = c['report']
         if c['status'] == 'ReachedEventTrigger':
-            ev = c['ev']; lo, hi = ev['lo'], ev['hi']; rep = c['report']
+            # the report time the window must exclude is the one given to the stepTo call that took (and localised) the step;
+            # a NEW report time placed inside an already localised window by a later call is C19's known finding
+            ev = c['ev']; lo, hi = ev['lo'], ev['hi']; rep = step_report if step_report is not None else c['report']
             bad = []
             if not (lo < hi): bad.append('window (%s,%s] not ordered' % (hx(lo), hx(hi)))
             if lo < rep < hi: bad.append('report time %s strictly inside the window (%s,%s)' % (hx(rep), hx(lo), hx(hi)))
